@@ -28,6 +28,8 @@ func init() {
 
 func runC04(c *Ctx) {
 	p := c.Progs["mod"]
+	c.Rule("C04.Y", "compatibility with the party that is not changed with this code: the agent starts only the three exchanges every proxy build tells apart", 3)
+	ruleAgentProxyExchanges(c, p, "C04.Y")
 	c.Rule("C04.D", "dedup decision dominates the worker start; the window of seen IDs is never reset", 6)
 	c.Rule("C04.O", "the dedup LRU is owned by the polling goroutine", 1)
 	c.Rule("C04.N", "dedup window ≥ 1000", 1)
@@ -609,6 +611,34 @@ func lruConfinement(p *Prog, newc ssa.Instruction) string {
 				}
 				bad = "passed to " + n
 			case *ssa.DebugRef:
+			case *ssa.FieldAddr:
+				// cache.OnEvicted = func(key, value) {…}: the callback runs inside Add/RemoveOldest, on the
+				// goroutine that owns the cache; it must not capture the cache itself
+				if fieldName(x.X.Type(), x.Field) == "OnEvicted" && x.X == cache {
+					okCb := true
+					for _, rr := range Refs(x) {
+						switch y := rr.(type) {
+						case *ssa.DebugRef:
+						case *ssa.Store:
+							if y.Addr != ssa.Value(x) {
+								okCb = false
+							}
+							if mc, isMC := y.Val.(*ssa.MakeClosure); isMC {
+								for _, b := range mc.Bindings {
+									if b == cache {
+										okCb = false
+									}
+								}
+							}
+						default:
+							okCb = false
+						}
+					}
+					if okCb {
+						continue
+					}
+				}
+				bad = fmt.Sprintf("used by %T at %s (captured, stored or handed to another goroutine)", r, p.Pos(r.Pos()))
 			case *ssa.Store:
 				// kept in a field of a new wrapper type (type seenIDs struct{ cache *lru.Cache }): the
 				// wrapper is the confined object from here on
